@@ -37,7 +37,8 @@ fn scenario(c: &Case) -> Result<(), String> {
         0 | 1 => {
             let (topic, tx) = pubsub::Topic::<Frame, String>::pair();
             let mut ex = Exec::new(topic);
-            ex.inner_limit = 200 * (n as u64 + 100);
+            // the spin rule of C09: work x peers (a router may look at every peer once per registration)
+            ex.inner_limit = 16 * (n as u64 + 2) * (n as u64 + 4) + 50_000;
             // the router has been stuck: nothing was polled while the registrations piled up
             let mut senders = vec![];
             let mut sinks = vec![];
@@ -89,7 +90,8 @@ fn scenario(c: &Case) -> Result<(), String> {
         _ => {
             let (topic, tx) = reqrep::Topic::<String>::pair();
             let mut ex = Exec::new(topic);
-            ex.inner_limit = 200 * (n as u64 + 100);
+            // the spin rule of C09: work x peers (a router may look at every peer once per registration)
+            ex.inner_limit = 16 * (n as u64 + 2) * (n as u64 + 4) + 50_000;
             let rep_si = MockSink::new(1000);
             let rep_st = MockStream::default();
             let mut t0 = tx.clone();
